@@ -205,6 +205,12 @@ func checkC10(c *Ctx) {
 				bad = true
 				continue
 			}
+			// gofmt itself sorts the specs of an import block and normalises number literals (0XFF, 1E3):
+			// the reference token stream is that of gofmt(original), which differs from the original's in
+			// nothing else
+			if f0, err := format.Source(orig); err == nil {
+				orig = f0
+			}
 			ta, _ := scanAll(orig)
 			tb, _ := scanAll(now)
 			subst, why := renameOnlyDiff(ta, tb, "derive")
@@ -370,7 +376,7 @@ func c10Cases(c *Ctx) []c10Case {
 	}
 	for _, sc := range scens {
 		for ni, nm := range names {
-			for layout := 0; layout < 3; layout++ {
+			for layout := 0; layout < 4; layout++ {
 				if c.Quick && (ni+layout+len(sc.name))%2 != int(c.Seed%2) && layout > 0 {
 					continue
 				}
@@ -385,6 +391,12 @@ func c10Cases(c *Ctx) []c10Case {
 				if layout == 2 {
 					src = uglify(src, r)
 					desc += " non-gofmt"
+				}
+				if layout == 3 {
+					// correct layout, but things only gofmt proper (not go/printer alone) touches: an unsorted
+					// import block and number literals with upper-case prefixes / exponents
+					src = hdr + "import (\n\t\"strings\"\n\t\"fmt\"\n\t\"bytes\"\n)\n\nvar _ = fmt.Sprint(strings.ToUpper(\"x\"), bytes.MinRead, 0XFF, 1E3, 0B11, 0O17, 0X1P-2)\n\n" + strings.TrimPrefix(src, hdr)
+					desc += " unsorted-imports+literals"
 				}
 				files := map[string]string{"p/p.go": src, "p/other.go": other, "q/q.go": bystander, "p/NOTES.txt": notes}
 				// a second user file with its own (non-renamed) derive call
